@@ -291,4 +291,14 @@ class Environment:
                     f'No scheduled events left but "until" event was not '
                     f'triggered: {until}'
                 )
+        finally:
+            # However this run is left (also by a failure a process did not
+            # handle), its stop request is withdrawn: it must not end a later
+            # run() early.
+            if (
+                until is not None
+                and until.callbacks is not None
+                and StopSimulation.callback in until.callbacks
+            ):
+                until.callbacks.remove(StopSimulation.callback)
         return None
